@@ -256,29 +256,23 @@ BN_mod_mul(BIGNUM * r, const BIGNUM * a, const BIGNUM * b, const BIGNUM * m, BN_
 }
 
 /*
- * exact: position of the highest set bit + 1 (0 for the value 0).  The DH code asks only for results of
- * BN_mod_mul, which are below the 2048-bit modulus; BN_OUT_BYTES bounds the scan (MODEL-BOUND otherwise).
+ * exact, stated declaratively (BN_num_bits(3): "if 2^(n-1) <= a < 2^n, BN_num_bits returns n"; 0 for a == 0):
+ * the result is the unique n in [0, 2056] with (a >> n) == 0 and, unless n == 0, bit n-1 of a set.  The DH code
+ * asks only for results of BN_mod_mul, which are below the 2048-bit modulus (MODEL-BOUND otherwise).
  */
 #define BN_OUT_BYTES 257
 int
 BN_num_bits(const BIGNUM * a)
 {
 	bn_val_t v;
-	int i, bits = 0;
+	int bits = nondet_int();
 
 	BN_LIVE(a, "BN_num_bits");
 	v = BN_VAL(a);
 	BN_BOUND(v < ((bn_val_t)1 << (8 * BN_OUT_BYTES)), "BN_num_bits operand below 2^2056");
-	for (i = 0; i < BN_OUT_BYTES; i++) {
-		uint8_t byte = (uint8_t)((v >> (8 * i)) & 0xff);
-		if (byte != 0) {
-			int top = 0, k;
-			for (k = 0; k < 8; k++)
-				if ((byte >> k) & 1)
-					top = k + 1;
-			bits = 8 * i + top;
-		}
-	}
+	__CPROVER_assume(bits >= 0 && bits <= 8 * BN_OUT_BYTES);
+	__CPROVER_assume((v >> bits) == 0);
+	__CPROVER_assume(bits == 0 || ((v >> (bits - 1)) & 1) == 1);
 	return (bits);
 }
 
